@@ -103,6 +103,16 @@ def run(repo: Repo, tier: str) -> Report:
         rep.ob("NB-TYPES", k.file, k.name, f"signature ({', '.join(f['args'])}) passes type inference", True, "",
                f"{k.name}({', '.join(f['args'])})", line=k.node.lineno, kind=f["origin"])
 
+    # ---- NB-FLAGS: compile options that change floating-point or error semantics relative to the interpreter
+    SAFE = {"nopython": {"True"}, "nogil": {"True", "False"}, "cache": {"True", "False"}, "parallel": {"True", "False"}}
+    for k in kernels.values():
+        bad = {o: v for o, v in k.options.items() if o not in SAFE or v not in SAFE[o]}
+        par_ok = k.options.get("parallel") != "True" or k.name == "ws2doptvplc_tyx"
+        rep.ob("NB-FLAGS", k.file, k.name, "the kernel is compiled without options that alter numeric or error semantics (fastmath, error_model, ...)",
+               not bad and par_ok,
+               f"decorator options {k.options}: " + ("fastmath lets LLVM reassociate/contract the one-pass sums (compiled != interpreted on ill-conditioned input); "
+                                                      "error_model='numpy' changes division by zero" if bad else "unexpected parallel=True (reduction order)"),
+               f"{k.name}: decorator options {sorted(k.options.items())}", line=k.node.lineno)
     # ---- NB-PROMOTE
     seen = set()
     n_arith = 0
